@@ -68,7 +68,7 @@ type Attr struct {
 // Case is one element inside a small wrapper.
 type Case struct {
 	Tag   string            `json:"tag"`             // p, span, div, a, input, template
-	Place string            `json:"place,omitempty"` // "" (inside <div>), root, slot, slot#, tplfor
+	Place string            `json:"place,omitempty"` // "" (inside <div>), root, slot, slot#, tplfor, sloop, sloop#, stwice, sdloop, sdplain
 	Attrs []Attr            `json:"attrs"`
 	Data  map[string]vals.V `json:"data,omitempty"`
 }
@@ -76,7 +76,35 @@ type Case struct {
 const (
 	forVar  = "it"    // loop variable of v-for / tplfor
 	forList = "items" // list iterated by v-for / tplfor
+	rowList = "rows"  // list of {on, v} maps: one slot instantiation per row in the multi-slot placements
+	slotVar = "sp"    // name the scoped slot props are bound to: sp.on, sp.v
 )
+
+// Multi-slot placements: the element is slot content of a component that instantiates the slot
+// once per row (`<slot>` inside v-for) or twice; the same content node is evaluated several
+// times in one render, each time with the slot props of its row.
+//
+//	sloop   <template v-slot:hdr="sp">, component loops over rows
+//	sloop#  <template #hdr="sp">, component loops over rows
+//	stwice  <template v-slot:hdr="sp">, component uses the slot twice (rows[0], rows[1])
+//	sdloop  <template v-slot="sp"> (default scoped slot), component loops over rows
+//	sdplain plain default content (no slot props), component loops over rows
+var multiSlot = map[string]bool{"sloop": true, "sloop#": true, "stwice": true, "sdloop": true, "sdplain": true}
+
+func (c Case) scoped() bool { return multiSlot[c.Place] && c.Place != "sdplain" }
+
+// instances is the number of times the element is expected in the output.
+func (c Case) instances() int {
+	switch {
+	case c.Place == "stwice":
+		return 2
+	case multiSlot[c.Place]:
+		return len(c.Data[rowList].L)
+	case c.loops():
+		return len(c.Data[forList].L)
+	}
+	return 1
+}
 
 func (c Case) has(kind, name string) bool {
 	for _, a := range c.Attrs {
@@ -176,6 +204,23 @@ func (c Case) source() (page string, files map[string]string) {
 		return el, nil
 	case "tplfor":
 		return `<div><template v-for="` + forVar + ` in ` + forList + `">` + el + `</template></div>`, nil
+	case "sloop", "sloop#", "stwice", "sdloop", "sdplain":
+		slotAttrs := ` name="hdr" :on="row.on" :v="row.v"`
+		open, shut := `<template v-slot:hdr="`+slotVar+`">`, `</template>`
+		switch c.Place {
+		case "sloop#":
+			open = `<template #hdr="` + slotVar + `">`
+		case "sdloop":
+			open, slotAttrs = `<template v-slot="`+slotVar+`">`, ` :on="row.on" :v="row.v"`
+		case "sdplain":
+			open, shut, slotAttrs = "", "", ""
+		}
+		comp := `<ul><li v-for="row in ` + rowList + `"><slot` + slotAttrs + `></slot></li></ul>`
+		if c.Place == "stwice" {
+			comp = `<section><slot name="hdr" :on="` + rowList + `[0].on" :v="` + rowList + `[0].v"></slot><b>sep</b><slot name="hdr" :on="` + rowList + `[1].on" :v="` + rowList + `[1].v"></slot></section>`
+		}
+		page = `<div><template include="comp.vuego" :` + rowList + `="` + rowList + `">` + open + el + shut + `</template></div>`
+		return page, map[string]string{"page.vuego": page, "comp.vuego": comp}
 	case "slot", "slot#":
 		at := "v-slot:hdr"
 		if c.Place == "slot#" {
@@ -202,6 +247,15 @@ func (c Case) goData() map[string]any {
 
 // lookup resolves a data path for iteration k of the surrounding loop (if any).
 func (c Case) lookup(path string, k int) vals.V {
+	if c.scoped() && strings.HasPrefix(path, slotVar+".") {
+		rows := c.Data[rowList].L
+		if k < len(rows) {
+			if v, ok := rows[k].M[strings.TrimPrefix(path, slotVar+".")]; ok {
+				return v
+			}
+		}
+		return vals.Missing()
+	}
 	if path == forVar && c.loops() {
 		items := c.Data[forList].L
 		if k < len(items) {
@@ -606,10 +660,10 @@ func check(c Case) error {
 			}
 		}
 	}
-	want := 1
-	if c.loops() {
-		want = len(c.Data[forList].L)
+	if multiSlot[c.Place] && (c.dir("v-for") || c.dir("v-once")) {
+		return nil // instance numbering would be ambiguous: not a case of this package
 	}
+	want := c.instances()
 	els := hx.Find(forest, func(n *hx.N) bool { return n.Attrs["data-m"] == "1" })
 	raw := markedStartTags(out)
 	atLeast := want
